@@ -82,6 +82,12 @@ func scenarios(tier string) []scenario {
 			}
 		}
 	}
+	// FileSink's pass-through special /dev/stderr (os.Stderr is pointed at /dev/null while these run): its
+	// byte counter is shared state like that of a real file
+	for _, shared := range []bool{false, true} {
+		out = append(out, scenario{X: "stderrsink", Y: "stderrsink", Shared: shared, Senders: 2, Control: "none", Bound: b},
+			scenario{X: "stderrsink", Y: "stderrsink", Shared: shared, Senders: 1, Control: "reopen", Bound: b})
+	}
 	for i := range out {
 		s := &out[i]
 		// two full fan-outs (about ten threads) explode under free switches: bound
@@ -224,6 +230,8 @@ func (w *world) mk(kind string) (el.Node, string) {
 		p := filepath.Join(w.dir, fmt.Sprintf("fs%d", len(w.files)))
 		w.files = append(w.files, p)
 		return &el.FileSink{Path: p, FileName: "out.log", MaxBytes: 8}, ""
+	case "stderrsink":
+		return &el.FileSink{Path: "/dev/stderr"}, ""
 	case "writersink":
 		lw := &lineWriter{}
 		w.writers = append(w.writers, lw)
@@ -249,6 +257,8 @@ func (w *world) sinkFor(kind, format string) el.Node {
 	return n
 }
 
+var devNull *os.File
+
 func body(sc scenario, scratch string) func() string {
 	return func() string {
 		dir, err := os.MkdirTemp(scratch, "c19")
@@ -256,6 +266,14 @@ func body(sc scenario, scratch string) func() string {
 			vrt.Fail("harness: %v", err)
 		}
 		defer os.RemoveAll(dir)
+		if sc.X == "stderrsink" {
+			if devNull == nil {
+				devNull, _ = os.OpenFile(os.DevNull, os.O_WRONLY, 0)
+			}
+			saved := os.Stderr
+			os.Stderr = devNull
+			defer func() { os.Stderr = saved }()
+		}
 		w := &world{dir: dir, rec: &hn.GateRec{Type: "composite"}, clk: &hn.Clock{}, gateBroker: sc.Control == "gatedexpire"}
 		w.b, _ = el.NewBroker()
 		vrt.Quiet(func() {
@@ -391,7 +409,7 @@ func main() {
 			ex := &vrt.Explorer{Bound: sc.Bound, FreeBound: sc.Free, Body: body(sc, scratch)}
 			return hk.ExploreJob(prop, job, deadline, ex, sc.Name)
 		},
-		Rule: "for every ordered pair (X,Y) of stock node kinds {Filter, JSONFormatter, JSONFormatterFilter, cloudevents FormatterFilter, encrypt.Filter, gated.Filter, FileSink (MaxBytes=8, real directory), writer.Sink, ChannelSink}: two pipelines of one event type, X as an inner node of pipeline 1 (it runs in a child goroutine) and Y at the head of pipeline 2, so both work on the same *Event concurrently; separate instances and, for stateful kinds, one shared instance; 1-2 sender threads plus a control {none, Broker.Reopen, encrypt.Filter.Rotate, cloudevents Rotate, an expired gated group that both senders try to flush through a Sender}; every schedule within the bounds stated in each scenario's name (quick: 0-1 preemptions and 2-3 non-default switches at blocking points; thorough: 2 preemptions, 3 non-default switches) under the Go race detector inside the controlled scheduler; oracles: race / panic / deadlock per execution, every write received by a sink is one complete JSON line, no overlapping writes.",
+		Rule: "for every ordered pair (X,Y) of stock node kinds {Filter, JSONFormatter, JSONFormatterFilter, cloudevents FormatterFilter, encrypt.Filter, gated.Filter, FileSink (MaxBytes=8, real directory), writer.Sink, ChannelSink} (plus FileSink on the /dev/stderr pass-through path, shared and separate): two pipelines of one event type, X as an inner node of pipeline 1 (it runs in a child goroutine) and Y at the head of pipeline 2, so both work on the same *Event concurrently; separate instances and, for stateful kinds, one shared instance; 1-2 sender threads plus a control {none, Broker.Reopen, encrypt.Filter.Rotate, cloudevents Rotate, an expired gated group that both senders try to flush through a Sender}; every schedule within the bounds stated in each scenario's name (quick: 0-1 preemptions and 2-3 non-default switches at blocking points; thorough: 2 preemptions, 3 non-default switches) under the Go race detector inside the controlled scheduler; oracles: race / panic / deadlock per execution, every write received by a sink is one complete JSON line, no overlapping writes.",
 		Assumptions: []string{
 			"race detection is happens-before based, so low preemption bounds already expose every unordered access pair of the visited synchronisation orders",
 			"8 senders and 4-pipeline compositions of the statement are not reached",
